@@ -209,6 +209,12 @@ class Gen(object):
             op = r.choice(OFS)
             rules[op] = [self.rules(depth - 1, siblings, pool, small=True, in_of=True)
                          for _ in range(r.randrange(0, 4))]
+        if r.random() < 0.07:
+            # check_with: a method name of the pool class, a callable, or a sequence of them
+            import pool as _pool
+            names = ['even', 'never', 'always', 'twice']
+            one = lambda: (r.choice(names) if r.random() < 0.5 else _pool.CHECKS[r.choice(names)])
+            rules['check_with'] = one() if r.random() < 0.5 else [one() for _ in range(r.randrange(1, 4))]
         if self.norm and not in_of:
             self.add_normalization(rules, depth, siblings, small, key_rules)
         return rules
@@ -264,7 +270,7 @@ class Gen(object):
         if r.random() < 0.2:
             rules['coerce'] = self.coercer(('to_int', 'to_str', 'prefix_x', 'ident', 'fail', 'keyfail')) if key_rules else self.coercer()
         if not key_rules and not small and r.random() < 0.07:
-            rules['rename'] = r.choice(['n1', 'n2', 7] + [s for s in siblings][:2])
+            rules['rename'] = r.choice(['n1', 'n2', 7, 0, ''] + [s for s in siblings][:2])       # falsy names are names too
         if not key_rules and not small and r.random() < 0.06:
             rules['rename_handler'] = self.coercer(('prefix_x', 'to_str', 'to_int', 'ident', 'fail', 'failrt', 'wrap'))    # wrap: an unhashable new name
         if rules.get('type') == 'dict' and 'schema' in rules and r.random() < (0.6 if self.purge_bias else 0.25):
